@@ -7,7 +7,7 @@ import numpy as np
 from mc.oracle import table as T
 
 RULE = (
-    "stored 4-field table (i4, f8 (2,), S3, i2; little- and big-endian variants) with n rows, binary "
+    "stored 4-field table (i4, f8 (2,), S3, i2; little- and big-endian variants; a variant with other item sizes; a variant whose string cells contain every delimiter character) with n rows, binary "
     "and text; rows: every scalar in [-n-2,n+2], every sequence over [0,n] of length <=L (n = the "
     "out-of-range row) as list/tuple/i8/i4/u2 array, every slice(a,b,s) with a,b in {None} U [-n-2,n+2], "
     "s in {None,1,2,3}; columns: every ordered non-empty subset of the 4 names as list/tuple/array, "
@@ -29,7 +29,11 @@ DT = {
     "be": [("a", ">i4"), ("x", ">f8", (2,)), ("s", "S3"), ("h", ">i2")],
     # different item sizes / sub-array rank: other skip distances in the column readers
     "mix": [("a", "<u8"), ("x", "<f4", (2, 2)), ("s", "S1"), ("h", "i1")],
+    # string cells that contain every delimiter character, blanks and NULs (fixed-width strings may): a text
+    # reader that SKIPS this column must still skip exactly its width
+    "hostile": [("a", "<i4"), ("x", "<f8", (2,)), ("s", "S5"), ("h", "<i2")],
 }
+HOSTILE = [b"a,b:c", b"x\ty z", b"q,,,,", b"r::\t ", b"k , :", b"ab"]
 
 
 def mk(tid, n):
@@ -37,7 +41,9 @@ def mk(tid, n):
     d["a"] = np.arange(n) + 100
     per = int(np.prod(d.dtype["x"].shape))
     d["x"] = (np.arange(per * n) / 4 + 0.5).reshape((n,) + d.dtype["x"].shape)
-    if d.dtype["s"].itemsize == 1:
+    if tid == "hostile":
+        d["s"] = [HOSTILE[i % len(HOSTILE)] for i in range(n)]
+    elif d.dtype["s"].itemsize == 1:
         d["s"] = [bytes([97 + i % 26]) for i in range(n)]
     else:
         d["s"] = [("r%d" % i).encode() for i in range(n)]
@@ -293,9 +299,9 @@ def main(ctx):
     def row_reps(n):
         return [None, ("scalar", n - 1), ("list", (n - 1, 0, 0)), ("i4", (0,)), ("slice", 1, None, 2)]
 
-    tids = ctx.pick(["le", "mix"], ["le", "be", "mix"])
+    tids = ctx.pick(["le", "mix", "hostile"], ["le", "be", "mix", "hostile"])
     ns = ctx.pick([1, 3, 4], [1, 2, 3, 4, 6])
-    ns_for = {"le": ns, "be": ns, "mix": ctx.pick([3], [1, 4])}
+    ns_for = {"le": ns, "be": ns, "mix": ctx.pick([3], [1, 4]), "hostile": ctx.pick([3], [2, 6])}
     delims = ctx.pick([None, ","], [None, ",", ":", "\t", " "])
     L = ctx.pick(3, 4)
 
@@ -367,3 +373,8 @@ def main(ctx):
         ctx.histories("reads-on-one-handle(%s)" % ("binary" if delim is None else "text"), [()],
                       execute_for(delim), depth=depth, nodedup_depth=depth,
                       bounds=dict(selection_alphabet=len(SEL), depth=depth))
+
+    # ------------------------------------------- several handles open at once (process-wide state)
+    from mc.handles import several_handles
+    several_handles(ctx, "several-handles", ctx.pick(["bin", "colon", "comma"], ["bin", "colon", "comma", "pipe"]),
+                    depth=ctx.pick(4, 5), nodedup_depth=ctx.pick(3, 4))
